@@ -198,3 +198,23 @@ def r03_6(ctx):
     r02_3(ctx)
     r02_4(ctx)
     r02_5(ctx)
+
+
+@rule("R03.7", min_instances=2, desc="a grid='bspline' signal in the dynamics is a function of time inside the integrator too: the value handed to the M sub-steps of interval k must not be the single sample at t_k")
+def r03_7(ctx):
+    """Convergence to the continuous model as M grows requires every time-varying input of the right-hand side to be
+    evaluated at the stage times.  The shooting path hands `p` (built by get_p_sys) unchanged to all M calls of the step map."""
+    P = ctx.prog
+    g = P.own_method("SamplingMethod", "get_signals_at")
+    rets = [r for r in walk_no_nested(g.node) if isinstance(r, ast.Return) and r.value is not None]
+    k = g.params[2]
+    per_interval_only = len(rets) == 1 and any(isinstance(x, ast.Subscript) and ast.unparse(x.slice) == k and isinstance(x.value, ast.Attribute) and x.value.attr == "sampled" for x in ast.walk(rets[0].value))
+    ctx.check(len(rets) == 1, "get_signals_at has one return", detail="structure", expected="one return", found=str(len(rets)), fi=g)
+    f = P.own_method("SamplingMethod", "discrete_system")
+    sc = ctx.scope(f)
+    calls = [c for c in walk_no_nested(f.node) if isinstance(c, ast.Call) and any(kw.arg == "t0" for kw in c.keywords) and any(kw.arg == "p" for kw in c.keywords) and sc.enclosing_loops(c)]
+    const_p = len(calls) == 1 and isinstance([kw.value for kw in calls[0].keywords if kw.arg == "p"][0], ast.Name) and \
+        sc.reaching([kw.value for kw in calls[0].keywords if kw.arg == "p"][0].id, calls[0]) is None
+    ctx.check(not (per_interval_only and const_p), "shooting: B-spline signals inside the integrator", detail="a grid='bspline' signal in the dynamics is frozen at its value at t_k for all M integrator steps of interval k (zero-order hold): the flow does not converge to the continuous model as M grows",
+              expected="the signal evaluated at the stage times of every sub-step (as DirectCollocation does at its collocation times), or such models rejected by the shooting methods",
+              found="get_signals_at returns e.sampled[%s]; discrete_system passes the same p to every sub-step" % k, fi=g, sample={"signals": ast.unparse(rets[0].value) if rets else None})
